@@ -200,6 +200,10 @@ package cli
 //@   ensures i.ir.buf != nil ==> len(out(i.ir.buf)) == old(len(out(i.ir.buf))) + ghost(i, "read") - old(ghost(i, "read"))
 //@   ensures (err is *json.SyntaxError) ==> err.(*json.SyntaxError) != nil && old(ghost(i, "cons")) <= err.(*json.SyntaxError).Offset && err.(*json.SyntaxError).Offset <= ghost(i, "read")
 
+// ASSUMED: i.pos is the decoder's InputOffset, the consumption point (after a value has been returned)
+//@ external field.jsonInputIter.pos(i) (n)
+//@   ensures n == ghost(i, "cons")
+
 //@ func (i *jsonInputIter) Next() (v any, ok bool)
 //@   property C17
 //@   requires i.ir.buf != nil || i.ir.rs != nil
